@@ -316,113 +316,135 @@ def check_k3(chk, m, cfg, L):
                             # (of the tokenising loop - the first one; the padding loop's own index is bounded by its loop condition)
                             if d_ is not None and d_.op == "phi" and heads and d_.block.name == heads[0]:
                                 local_counters[x[1]] = d_.block.name
-    for start, p in segs:
-        sid = "do_tokenize[%s] %s -> %s" % (cfg, start.lstrip("%"), p.end)
-        pr = Prover()
-        A = Lin.atom("argc")
-        first_head = start != fn.entry.name
-        for cn, hd in local_counters.items():
-            if start == hd:
-                pr.assume_le(Lin.const(1), Lin.atom("sym:" + cn))
-                pr.assume_le(Lin.atom("sym:" + cn), Lin.const(N - 1))
+    class _Dry:
+        def __init__(self):
+            self.inv_failed = False
 
-        def atom_of(x):
-            if x[0] == "ld" and x[1] == argc_ptr:
-                return "argc"
-            if x[0] == "sym":
-                return "sym:" + x[1]
-            return None
-        if first_head:
-            pr.assume_le(Lin.const(1), A)
-            pr.assume_le(A, Lin.const(N - 1))
-        # a re-load of argc after the segment has stored to it sees the stored value (the engine forgets it when a store to
-        # argv[variable] intervenes; that store stays inside argv by K3.argv-store, so it cannot have changed argc)
-        fwd = {}
-        cur = None
-        for e in p.events:
-            if e.kind == "store" and e.ptr == argc_ptr:
-                cur = e.val
-            elif e.kind == "load" and e.ptr == argc_ptr and cur is not None and e.val[0] == "ld":
-                fwd[e.val] = cur
+        def ob(self, rule, inst, ok, *a, **k):
+            pass
 
-        def forward(x, depth=0):
-            if not isinstance(x, tuple) or depth > 8:
-                return x
-            if x in fwd:
-                return forward(fwd[x], depth + 1)
-            return tuple(forward(y, depth) if isinstance(y, tuple) else y for y in x)
-        for c, taken, inst in p.conds:
-            cc = strip_casts(forward(c))
-            if cc[0] != "icmp":
-                continue
-            a, b = expr_to_lin(cc[2], atom_of), expr_to_lin(cc[3], atom_of)
-            if not all(isinstance(k, str) for k in a.atoms() | b.atoms()):
-                continue
-            pred = cc[1]
-            if not taken:
-                pred = {"ult": "uge", "uge": "ult", "ule": "ugt", "ugt": "ule", "eq": "ne", "ne": "eq",
-                        "slt": "sge", "sge": "slt", "sle": "sgt", "sgt": "sle"}[pred]
-            p2 = pred[1:] if pred[0] in "us" and len(pred) == 3 else pred
-            {"lt": lambda: pr.assume_lt(a, b), "le": lambda: pr.assume_le(a, b), "gt": lambda: pr.assume_lt(b, a),
-             "ge": lambda: pr.assume_le(b, a), "eq": lambda: pr.assume_eq(a, b), "ne": lambda: pr.assume_ne(a, b)}[p2]()
-            for k in a.atoms() | b.atoms():
-                if k.startswith("sym:"):
-                    pr.assume_ge0(Lin.atom(k))
-                    lb = sym_lower_bound(k[4:])
-                    if lb is not None and lb > 0:
-                        pr.assume_le(Lin.const(lb), Lin.atom(k))
-        for e in p.events:
-            if e.kind == "store" and e.ptr is not None:
-                root, off, var = ptr_parts(e.ptr)
-                if root == ("arg", ca) and argv_off <= off < argv_off + argv_sz + m.ptr_size and (var or off >= argv_off):
-                    if root == ("arg", ca) and (off - argv_off) % m.ptr_size == 0 and (not var or (len(var) == 1 and var[0][1] == m.ptr_size)):
-                        idx = Lin.const((off - argv_off) // m.ptr_size)
-                        if var:
-                            idx = idx + expr_to_lin(forward(var[0][0]), atom_of)
-                        if off == L["cmd"][0] if "cmd" in L else False:
-                            continue
-                        n += 1
-                        named = all(isinstance(k, str) for k in idx.atoms())
-                        ok = named and pr.prove_ge0(idx) and pr.prove_le(idx, Lin.const(N - 1))
-                        if ok:
-                            chk.ob("K3.argv-store", sid + " argv[%s]" % idx, True, "index proved within [0, %d]" % (N - 1), e.inst.loc, fn.name)
-                        else:
-                            env = pr.refute_ge0(Lin.const(N - 1) - idx, {a: range(0, N + 3) for a in
-                                                                          (idx.atoms() | set().union(*[h.atoms() for h in pr.hyps]) if pr.hyps else idx.atoms())}) if named else None
-                            if env is not None:
-                                chk.ob("K3.argv-store", sid + " argv[%s]" % idx, False,
-                                       "argv[%s] can be written out of bounds (argv has %d entries), e.g. %s" % (idx, N, {k: int(v) for k, v in env.items()}),
-                                       e.inst.loc, fn.name)
-                            else:
-                                chk.unknown("K3.argv-store", sid, "index %s of argv not decided" % idx, e.inst.loc)
-        for cn, hd in local_counters.items():
-            if p.end == "cut:" + hd and cn in (getattr(p, "carried", None) or {}):
-                v = expr_to_lin(p.carried[cn], atom_of)
-                if all(isinstance(k, str) for k in v.atoms()) and pr.prove_le(Lin.const(1), v) and pr.prove_le(v, Lin.const(N - 1)):
-                    chk.ob("K3.argc-invariant", sid + " " + cn, True, "1 <= count <= %d re-established at the loop head for the local "
-                           "argument counter (count = %s)" % (N - 1, v), p.ret_inst.loc, fn.name)
-                else:
-                    chk.unknown("K3.argc-invariant", sid + " " + cn, "the local argument counter arrives at its loop head as %s: not shown "
-                                "to stay within [1, %d]" % (v, N - 1), p.ret_inst.loc)
-        # invariant re-established on arrival at the first loop head (only when argv is indexed by the argc field itself)
-        if uses_argc_field and (p.end.startswith("cut:") and heads and p.end == "cut:" + heads[0] or (p.end.startswith("cut:") and len(heads) == 1)):
-            fin = None
+        def unknown(self, rule, inst, *a, **k):
+            if rule == "K3.argc-invariant" and "local argument counter" in (a[0] if a else ""):
+                self.inv_failed = True
+
+    def run_pass(chk_):
+        n = 0
+        for start, p in segs:
+            sid = "do_tokenize[%s] %s -> %s" % (cfg, start.lstrip("%"), p.end)
+            pr = Prover()
+            A = Lin.atom("argc")
+            first_head = start != fn.entry.name
+            for cn, hd in local_counters.items():
+                if start == hd:
+                    pr.assume_le(Lin.const(1), Lin.atom("sym:" + cn))
+                    pr.assume_le(Lin.atom("sym:" + cn), Lin.const(N - 1))
+
+            def atom_of(x):
+                if x[0] == "ld" and x[1] == argc_ptr:
+                    return "argc"
+                if x[0] == "sym":
+                    return "sym:" + x[1]
+                return None
+            if first_head:
+                pr.assume_le(Lin.const(1), A)
+                pr.assume_le(A, Lin.const(N - 1))
+            # a re-load of argc after the segment has stored to it sees the stored value (the engine forgets it when a store to
+            # argv[variable] intervenes; that store stays inside argv by K3.argv-store, so it cannot have changed argc)
+            fwd = {}
+            cur = None
             for e in p.events:
                 if e.kind == "store" and e.ptr == argc_ptr:
-                    fin = e.val
-            v = expr_to_lin(forward(fin), atom_of) if fin is not None else A
-            if all(isinstance(k, str) for k in v.atoms()):
-                ok = pr.prove_le(Lin.const(1), v) and pr.prove_le(v, Lin.const(N - 1))
-                if ok:
-                    chk.ob("K3.argc-invariant", sid, True, "1 <= argc <= %d re-established at the loop head (argc = %s)" % (N - 1, v), p.ret_inst.loc, fn.name)
-                else:
-                    env = pr.refute_ge0(Lin.const(N - 1) - v, {a: range(0, N + 3) for a in (v.atoms() | set().union(*[h.atoms() for h in pr.hyps]))})
-                    if env is not None:
-                        chk.ob("K3.argc-invariant", sid, False,
-                               "the loop continues with argc = %s, e.g. %s: the next argument is stored to argv[%d] of %d"
-                               % (v, {k: int(x) for k, x in env.items()}, int(v.eval(env)), N), p.ret_inst.loc, fn.name)
+                    cur = e.val
+                elif e.kind == "load" and e.ptr == argc_ptr and cur is not None and e.val[0] == "ld":
+                    fwd[e.val] = cur
+
+            def forward(x, depth=0):
+                if not isinstance(x, tuple) or depth > 8:
+                    return x
+                if x in fwd:
+                    return forward(fwd[x], depth + 1)
+                return tuple(forward(y, depth) if isinstance(y, tuple) else y for y in x)
+            for c, taken, inst in p.conds:
+                cc = strip_casts(forward(c))
+                if cc[0] != "icmp":
+                    continue
+                a, b = expr_to_lin(cc[2], atom_of), expr_to_lin(cc[3], atom_of)
+                if not all(isinstance(k, str) for k in a.atoms() | b.atoms()):
+                    continue
+                pred = cc[1]
+                if not taken:
+                    pred = {"ult": "uge", "uge": "ult", "ule": "ugt", "ugt": "ule", "eq": "ne", "ne": "eq",
+                            "slt": "sge", "sge": "slt", "sle": "sgt", "sgt": "sle"}[pred]
+                p2 = pred[1:] if pred[0] in "us" and len(pred) == 3 else pred
+                {"lt": lambda: pr.assume_lt(a, b), "le": lambda: pr.assume_le(a, b), "gt": lambda: pr.assume_lt(b, a),
+                 "ge": lambda: pr.assume_le(b, a), "eq": lambda: pr.assume_eq(a, b), "ne": lambda: pr.assume_ne(a, b)}[p2]()
+                for k in a.atoms() | b.atoms():
+                    if k.startswith("sym:"):
+                        pr.assume_ge0(Lin.atom(k))
+                        lb = sym_lower_bound(k[4:])
+                        if lb is not None and lb > 0:
+                            pr.assume_le(Lin.const(lb), Lin.atom(k))
+            for e in p.events:
+                if e.kind == "store" and e.ptr is not None:
+                    root, off, var = ptr_parts(e.ptr)
+                    if root == ("arg", ca) and argv_off <= off < argv_off + argv_sz + m.ptr_size and (var or off >= argv_off):
+                        if root == ("arg", ca) and (off - argv_off) % m.ptr_size == 0 and (not var or (len(var) == 1 and var[0][1] == m.ptr_size)):
+                            idx = Lin.const((off - argv_off) // m.ptr_size)
+                            if var:
+                                idx = idx + expr_to_lin(forward(var[0][0]), atom_of)
+                            if off == L["cmd"][0] if "cmd" in L else False:
+                                continue
+                            n += 1
+                            named = all(isinstance(k, str) for k in idx.atoms())
+                            ok = named and pr.prove_ge0(idx) and pr.prove_le(idx, Lin.const(N - 1))
+                            if ok:
+                                chk_.ob("K3.argv-store", sid + " argv[%s]" % idx, True, "index proved within [0, %d]" % (N - 1), e.inst.loc, fn.name)
+                            else:
+                                env = pr.refute_ge0(Lin.const(N - 1) - idx, {a: range(0, N + 3) for a in
+                                                                              (idx.atoms() | set().union(*[h.atoms() for h in pr.hyps]) if pr.hyps else idx.atoms())}) if named else None
+                                if env is not None:
+                                    chk_.ob("K3.argv-store", sid + " argv[%s]" % idx, False,
+                                           "argv[%s] can be written out of bounds (argv has %d entries), e.g. %s" % (idx, N, {k: int(v) for k, v in env.items()}),
+                                           e.inst.loc, fn.name)
+                                else:
+                                    chk_.unknown("K3.argv-store", sid, "index %s of argv not decided" % idx, e.inst.loc)
+            for cn, hd in local_counters.items():
+                if p.end == "cut:" + hd and cn in (getattr(p, "carried", None) or {}):
+                    v = expr_to_lin(p.carried[cn], atom_of)
+                    if all(isinstance(k, str) for k in v.atoms()) and pr.prove_le(Lin.const(1), v) and pr.prove_le(v, Lin.const(N - 1)):
+                        chk_.ob("K3.argc-invariant", sid + " " + cn, True, "1 <= count <= %d re-established at the loop head for the local "
+                               "argument counter (count = %s)" % (N - 1, v), p.ret_inst.loc, fn.name)
                     else:
-                        chk.unknown("K3.argc-invariant", sid, "argc = %s at the loop head not decided" % v, p.ret_inst.loc)
+                        chk_.unknown("K3.argc-invariant", sid + " " + cn, "the local argument counter arrives at its loop head as %s: not shown "
+                                    "to stay within [1, %d]" % (v, N - 1), p.ret_inst.loc)
+            # invariant re-established on arrival at the first loop head (only when argv is indexed by the argc field itself)
+            if uses_argc_field and (p.end.startswith("cut:") and heads and p.end == "cut:" + heads[0] or (p.end.startswith("cut:") and len(heads) == 1)):
+                fin = None
+                for e in p.events:
+                    if e.kind == "store" and e.ptr == argc_ptr:
+                        fin = e.val
+                v = expr_to_lin(forward(fin), atom_of) if fin is not None else A
+                if all(isinstance(k, str) for k in v.atoms()):
+                    ok = pr.prove_le(Lin.const(1), v) and pr.prove_le(v, Lin.const(N - 1))
+                    if ok:
+                        chk_.ob("K3.argc-invariant", sid, True, "1 <= argc <= %d re-established at the loop head (argc = %s)" % (N - 1, v), p.ret_inst.loc, fn.name)
+                    else:
+                        env = pr.refute_ge0(Lin.const(N - 1) - v, {a: range(0, N + 3) for a in (v.atoms() | set().union(*[h.atoms() for h in pr.hyps]))})
+                        if env is not None:
+                            chk_.ob("K3.argc-invariant", sid, False,
+                                   "the loop continues with argc = %s, e.g. %s: the next argument is stored to argv[%d] of %d"
+                                   % (v, {k: int(x) for k, x in env.items()}, int(v.eval(env)), N), p.ret_inst.loc, fn.name)
+                        else:
+                            chk_.unknown("K3.argc-invariant", sid, "argc = %s at the loop head not decided" % v, p.ret_inst.loc)
+        return n
+    if local_counters:
+        # the invariant is used only if it is inductive; a counter that may reach N at the loop head (tested there before each
+        # store) is bounded by the segment's own conditions instead
+        dry = _Dry()
+        run_pass(dry)
+        if dry.inv_failed:
+            local_counters.clear()
+    n = run_pass(chk)
     chk.expect("K3", "argv stores in do_tokenize segments [%s]" % cfg, n, 3)
 
 
